@@ -89,9 +89,9 @@ def run(ctx, rep):
         def comp_filter(fn, bi, t, callee, fl=fl):
             if callee != TABLE_DECOMMIT:
                 return True
-            if fn.path != STARK_VERIFY:
-                return False
-            a0 = fl.operand_leaves(t['args'][0])
+            # the call may sit in stark_verify or in a stage it calls: the argument is read back to stark_verify's
+            # parameters through the stage's call sites
+            a0 = common.root_leaves(db, b, STARK_VERIFY, fn, t['args'][0])
             return any(x.startswith('a5.composition') for x in a0)
         obligations.check_chain(db, rep, 'C01.chain', f'{lname}/composition', [VERIFY, STARK_VERIFY, TABLE_DECOMMIT],
                                 b, None, cfgname, comp_filter)
@@ -102,11 +102,9 @@ def run(ctx, rep):
             def tf(fn, bi, t, callee, which=which, flt=flt, td=td):
                 if callee != TABLE_DECOMMIT:
                     return True
-                if fn.path != td.path:
-                    return False
-                a0 = flt.operand_leaves(t['args'][0])
-                a2 = flt.operand_leaves(t['args'][2])
-                a3 = flt.operand_leaves(t['args'][3])
+                a0 = common.root_leaves(db, b, td.path, fn, t['args'][0])
+                a2 = common.root_leaves(db, b, td.path, fn, t['args'][2])
+                a3 = common.root_leaves(db, b, td.path, fn, t['args'][3])
                 return (any(x.startswith('a2.' + which) for x in a0) and any(x.startswith('a3.' + which) for x in a2)
                         and any(x.startswith('a4.' + which) for x in a3))
             obligations.check_chain(db, rep, 'C01.chain', f'{lname}/trace-{which}', [td.path, TABLE_DECOMMIT], b, None,
